@@ -465,7 +465,7 @@ func runWorker(bin string, env []string, outDir string, idx int) *workerResult {
 	return r
 }
 
-var reRaceFunc = regexp.MustCompile(`(?m)^  (diagonal\.works/b6[^\s(]*)`)
+var reRaceFunc = regexp.MustCompile(`(?m)^  (diagonal\.works/b6\S*?)\(\)\s*$`)
 
 // crashClass derives a stable class from a crashed worker's stderr.
 func crashClass(prop, stderr string) (string, string) {
@@ -862,6 +862,19 @@ func main() {
 		os.WriteFile(path, b, 0o644)
 		// confirm in a fresh process
 		gotClass, gotDetail, rec := confirmReplay(bins, prop, rf, path)
+		if strings.Contains(c, "/race:") {
+			// The schedule replays exactly, but which pair of accesses the race
+			// detector reports (and whether its bounded, pseudo-randomly
+			// evicted shadow history still holds the earlier access) can vary
+			// between executions: accept any race report from this run, and
+			// try a few times.
+			for attempt := 0; attempt < 4 && !strings.Contains(gotClass, "/race:"); attempt++ {
+				gotClass, gotDetail, rec = confirmReplay(bins, prop, rf, path)
+			}
+			if strings.Contains(gotClass, "/race:") {
+				gotClass = c
+			}
+		}
 		if gotClass != c {
 			trouble("violation class %q (seed %d run %d) did not reproduce from its replay file %s in a fresh process (got %q): the run is not deterministic; this is a harness problem, not reported as a violation", c, f.seed, f.run, path, gotClass)
 		}
